@@ -2,11 +2,11 @@
 """Apply each seeded change of /verif/seeded/<id>/patch.diff to /repo, run the MANIFEST quick commands of the given
 properties (default: the property the seed breaks), undo the change, and report which checks caught it.
 
-usage: seedmatrix.py [seed ...] [--props C01,C02] [--all-props]
+usage: seedmatrix.py [seed ...] [--props C01,C02] [--all-props] [--own]
 Refuses to run if the files a seed touches have uncommitted changes. Never commits anything in /repo."""
 import json, os, subprocess, sys, time
 
-seeds, props_override, all_props = [], None, False
+seeds, props_override, all_props, own_only = [], None, False, False
 args = sys.argv[1:]
 while args:
     a = args.pop(0)
@@ -14,6 +14,8 @@ while args:
         props_override = args.pop(0).split(",")
     elif a == "--all-props":
         all_props = True
+    elif a == "--own":
+        own_only = True
     else:
         seeds.append(a)
 man = json.load(open("/verif/MANIFEST.json"))
@@ -29,7 +31,7 @@ for s in seeds:
     files = [l[6:].strip() for l in open(patch) if l.startswith("+++ b/")]
     if subprocess.run(["git", "-C", "/repo", "diff", "--quiet", "--"] + files).returncode != 0:
         print(f"{s}: /repo has uncommitted changes in {files}: commit first"); sys.exit(2)
-    props = props_override or ([p for p in cmds] if all_props else [meta.get("breaks_property", s[:3])] + meta.get("also_check", []))
+    props = props_override or ([p for p in cmds] if all_props else [meta.get("breaks_property", s[:3])] + ([] if own_only else meta.get("also_check", [])))
     if subprocess.run(["git", "-C", "/repo", "apply", patch]).returncode != 0:
         print(f"{s}: patch does not apply"); results[s] = "DOES-NOT-APPLY"; continue
     try:
